@@ -28,6 +28,9 @@ def B(x):
     raise OutsideSubset(f"not a boolean: {x!r}")
 
 
+TEXT_TOKENS = {"VersionText", "EpochText", "JoinDots", "RelText", "SpecText", "IntText"}
+
+
 def is_sym(v):
     return z3.is_expr(v)
 
@@ -320,7 +323,7 @@ class ExprMixin:
         if t in (ast.Add, ast.Sub, ast.Mult) and _is_num(a) and _is_num(b):
             return {ast.Add: lambda: a + b, ast.Sub: lambda: a - b, ast.Mult: lambda: a * b}[t]()
         if t is ast.Add:
-            if isinstance(a, (str,)) or (z3.is_expr(a) and z3.is_string(a)):
+            if isinstance(a, (str,)) or (z3.is_expr(a) and z3.is_string(a)) or type(a).__name__ in TEXT_TOKENS or type(b).__name__ in TEXT_TOKENS:
                 return self.str_concat([a, b])
             if isinstance(a, list) and isinstance(b, list):
                 return a + b
@@ -451,6 +454,10 @@ class ExprMixin:
 
     def equals(self, l, r):
         if isinstance(l, Opt) or isinstance(r, Opt):
+            if self.theory is not None and hasattr(self.theory, "opt_eq"):
+                x = self.theory.opt_eq(self, l, r)
+                if x is not None:
+                    return x
             if isinstance(l, Opt) and isinstance(r, Opt):
                 return z3.And(l.has == r.has, z3.Implies(l.has, l.val == r.val))
             o, x = (l, r) if isinstance(l, Opt) else (r, l)
@@ -503,6 +510,16 @@ class ExprMixin:
             return self.obj_eq(l, r)
         if isinstance(l, ClassRef) and isinstance(r, ClassRef):
             return l.cinfo is r.cinfo
+        if type(l).__name__ == "SetOfList" or type(r).__name__ == "SetOfList":
+            sl, other = (l, r) if type(l).__name__ == "SetOfList" else (r, l)
+            if not isinstance(other, (set, frozenset)) or not all(isinstance(x, int) for x in other):
+                raise OutsideSubset("set(list) compared with a non-constant set")
+            seq = sl.alist
+            i = z3.Int(fresh_name("si"))
+            n, get = self.seq_len_get(seq)
+            members = z3.ForAll([i], z3.Implies(z3.And(0 <= i, i < n), z3.Or(*[get(i) == x for x in other]) if other else z3.BoolVal(False)))
+            each = [z3.Exists([i], z3.And(0 <= i, i < n, get(i) == x)) for x in other]
+            return z3.And(members, *each)
         if isinstance(l, (SetVal, set, frozenset)) and isinstance(r, (SetVal, set, frozenset)) and (isinstance(l, SetVal) or isinstance(r, SetVal)):
             li = l.items if isinstance(l, SetVal) else sorted(l, key=repr)
             ri = r.items if isinstance(r, SetVal) else sorted(r, key=repr)
@@ -689,6 +706,13 @@ class ExprMixin:
     def getattr(self, o, attr, fr=None):
         if isinstance(o, SymObj):
             o = self.concretize(o)
+        if isinstance(o, Opt) and self.theory is not None and hasattr(self.theory, "opt_unwrap"):
+            if self.branch(z3.Not(o.has)):
+                raise RaiseEx("AttributeError", f"'NoneType' object has no attribute '{attr}'")
+            u = self.theory.opt_unwrap(self, o)
+            if u is None:
+                raise OutsideSubset(f"attribute {attr} of optional {o.kind}")
+            o = u
         if isinstance(o, Obj):
             if attr in o.fields:
                 return o.fields[attr]
@@ -707,7 +731,7 @@ class ExprMixin:
                         return o.cache[attr]
                     v = self.call_function(f, [o])
                     if "cached_property" in f.decorators:
-                        o.cache[attr] = v
+                        self.set_field(o.cache, attr, v)
                     return v
                 if f.is_classmethod:
                     return BoundMethod(ClassRef(o.cls), f)
